@@ -476,24 +476,30 @@ def replay(prop, hfs, ob, res, ov_unused):
     out = p.stdout + p.stderr
     with open(os.path.join(rdir, "kani_playback_output.txt"), "w") as f:
         f.write("\n".join(l for l in out.splitlines() if not NOISE.search(l)))
-    m = re.search(r"```\n?(.*?#\[test\].*?)```", out, re.S)
-    test_src = None
-    if m:
-        test_src = m.group(1).strip()
-        # strip leading "/// Test generated..." is fine to keep
+    # Kani prints one playback test per failed check (each from its own trace); keep them all (distinct, capped):
+    # the counterexample counts as reproduced when any of them fails natively
+    blocks = [b.strip() for b in re.findall(r"```\n?(.*?)```", out, re.S) if "#[test]" in b]
+    tests, seen = [], set()
+    for b in blocks:
+        nm = re.search(r"fn\s+(kani_concrete_playback_[A-Za-z0-9_]+)", b)
+        if nm and nm.group(1) not in seen:
+            seen.add(nm.group(1))
+            tests.append(b)
+    tests = tests[:8]
+    test_src = "\n\n".join(tests) if tests else None
     if not test_src:
         info["note"] = "kani produced no concrete playback test (e.g. failure not tied to concrete values)"
         with open(os.path.join(rdir, "replay.json"), "w") as f:
             json.dump(info, f, indent=1)
         return rdir, info
-    tname = re.search(r"fn\s+(kani_concrete_playback_[A-Za-z0-9_]+)", test_src)
-    tname = tname.group(1) if tname else None
+    tname = "kani_concrete_playback_" + ob.name if len(tests) > 1 else sorted(seen)[0]
     with open(ob.file) as f:
         hsrc = f.read()
     rfile = os.path.join(rdir, os.path.basename(ob.file))
     with open(rfile, "w") as f:
         f.write(hsrc + "\n\n// ---- concrete counterexample generated by Kani (replay) ----\n" + test_src + "\n")
     info["replay_test"] = tname
+    info["replay_tests"] = sorted(seen)[:8]
     info["concrete_values"] = re.findall(r"//\s*(.+)\n\s*vec!\[([^\]]*)\]", test_src)[:40]
     ov = make_overlay(prop + "-replay", hfs, replay_override={ob.file: rfile})
     args = ["cargo", "kani", "playback", "-Z", "concrete-playback", "-p", ob.crate, "--lib"] + CRATE_ARGS.get(ob.crate, []) + ["--", tname or "kani_concrete_playback"]
